@@ -1,7 +1,7 @@
 (* ConvLane.v -- executable glue for the CONV correspondence lane: environments built from the tables
    the harness computes by calling the real constructors / operators, exact comparison of values,
    and the case runner.  No proofs. *)
-From V.Model Require Import Base Templates Conv.
+From V.Model Require Import Base Templates Conv ConvErr.
 
 (* exact identity of values as the harness encodes them: same class AND same equality id for atoms;
    sets and dicts compared as collections (Python == on them ignores order) *)
@@ -93,17 +93,32 @@ Definition FUEL : nat := 60.
 
 Inductive ccase :=
 | CS (cfg : ccfg) (t : ty) (o : val) (expect : cout)
-| CU (cfg : ccfg) (t : ty) (x : val) (expect : cout).
+| CU (cfg : ccfg) (t : ty) (x : val) (expect : cout)
+(* ERR lane: the exception tree raised by a detailed-validation structure call, and the paths transform_error reports *)
+| CE (cfg : ccfg) (t : ty) (o : val) (tree : errkind) (ps : list (list step)).
 
 Definition ccase_model (E : env) (c : ccase) : cout :=
   match c with
   | CS cfg t o _ => cout_of (structure E cfg FUEL t o)
   | CU cfg t x _ => cout_of (unstructure E cfg FUEL t x)
+  | CE cfg t o _ _ => cout_of (structure E cfg FUEL t o)
   end.
 
 Definition ccase_ok (strict : bool) (E : env) (c : ccase) : bool :=
   match c with
   | CS _ _ _ x | CU _ _ _ x => cout_eqb strict (ccase_model E c) x
+  | CE cfg t o tree ps =>
+      match structure E cfg FUEL t o with
+      | Err e => tree_same e tree && paths_eqb (paths e []) ps
+      | _ => false
+      end
+  end.
+
+(* what the model computes for an ERR case, for replay files *)
+Definition cerr_model (E : env) (c : ccase) : option (errkind * list (list step)) :=
+  match c with
+  | CE cfg t o _ _ => match structure E cfg FUEL t o with Err e => Some (e, paths e []) | _ => None end
+  | _ => None
   end.
 
 Fixpoint bad_from (k : nat) (l : list bool) : list nat :=
